@@ -572,6 +572,7 @@ def finalize(M, s, st, tr, get_force=True):
 
 
 def run(ch, tr, st):
+    DEEP[0] = False
     M = modules()
     rng = ch.data_rng()
     with np.errstate(all="ignore"):
